@@ -19,6 +19,8 @@ RULE = ('sequential: per configuration (fire_count x fire_period x window) all h
         'preemptions at line granularity in the limiter/handler code; non-trivial = the limiter rejected at least one hit that the '
         'condition accepted / two threads were inside the check-record window together'
         ' ; updates facet: all histories (depth 4 quick / 6 thorough) over {hit, response repeating the tracepoint unchanged, +/- another tracepoint, changed arguments, removed, re-added, same id at another line} x fire_count{1,2} x action kinds, the fire count continues while every response repeats the tracepoint unchanged; 3 threads with hit times 0 / 1.5 / 1.6 periods')
+RULE_ADDED = "rounds 3-5: overtaken-hit spreads; update op 'moved'; settings that are not text (None, inf, nan, list, int, float, fractions, bool) for fire_count and fire_period"
+RULE = RULE + ' ; ' + RULE_ADDED
 ASSUMPTIONS = ['thread switches at source-line granularity in action_context.py, LocationAction, TracepointExecutionStats, TriggerHandler.trace_call (opcode granularity in TracepointExecutionStats.fire in the thorough tier)',
                'window as tracepoint *arguments* uses unit-robust extremes (window_end=1, window_start=10^30): past/future whether read as ms or ns']
 
